@@ -419,6 +419,19 @@ func (exp *SplitExp) resolveRefs(self, siblings map[string]*ResolvedBinding,
 					Exp:  rs,
 					Type: s.Type,
 				}
+			case *SplitExp:
+				src = rs
+				if rs.Type == nil && rs.Source != nil {
+					// The referenced call forks with an enclosing call, so
+					// there is one source per fork of that call.  Each of
+					// them still has the type of the reference.
+					if t, err := lookup.AddDim(s.Type,
+						rs.Source.CallMode()); err == nil {
+						ts := *rs
+						ts.Type = t
+						src = &ts
+					}
+				}
 			case MapCallSource:
 				src = rs
 			}
